@@ -33,6 +33,8 @@ def compare(b, h, v):
         for vid, val in veh.items():
             if isinstance(val, dict) and isinstance(val.get('learnedSkills'), int) and vid in h.get('skills', {}):
                 chk('skills[%d]' % vid, [i + 1 for i in range(64) if val['learnedSkills'] >> i & 1], list(h['skills'][vid]))
+    if 'avatar_ribbons' in e and isinstance(h.get('ribbons'), dict) and e['player_id'] in h['ribbons'] and not e['ribbons']:
+        chk('ribbons of the recording player (from privateVehicleState after the nested update)', e['avatar_ribbons'], dict(h['ribbons'][e['player_id']]))
     chk('control_points', [], list(h.get('control_points', [])))
     chk('tasks', [], list(h.get('tasks', [])))
     players = h.get('players', {})
@@ -104,7 +106,7 @@ def run(ctx):
     rng = ctx.rng
     try:
         versions = battle.wows_versions()
-        variants = [dict(join=True, battle_end=True, map_name='spaces/16_OC_bees_to_honey'), dict(join=False, battle_end=False, map_name='spaces/s07_Advance', reuse=True)]
+        variants = [dict(join=True, battle_end=True, map_name='spaces/16_OC_bees_to_honey'), dict(join=False, battle_end=False, map_name='spaces/s07_Advance', reuse=True, twins=True)]
         if ctx.tier != 'quick': variants += [dict(join=True, battle_end=True, map_name='spaces/41_Conquest', n_players=6), dict(join=False, battle_end=True, map_name='17_NA_fault_line')]
         def big_record(consts):
             # one player record with a long text value: the pickled roster is then longer than 65535 bytes (packed length with a non-zero third byte)
